@@ -215,4 +215,20 @@ func c01StateCase(c *fw.Ctx, k *fw.K, i int) {
 			})
 		}
 	}
+	// certificates of a country code that is no ISO 3166-1 country (EU, the code of the
+	// European Union laissez-passer issuer): no MRZ issuing state maps to it under the
+	// documented rule (ISO alpha-3, or D), least of all a blank field
+	eu := issuer.NewPKI(r, issuer.PKIOpts{Country: "EU", CertHash: issuer.SHA256, CSCAName: issuer.SimpleName("EU", "European Union", "CSCA EU"), DSName: issuer.SimpleName("EU", "European Union", "DS 1")})
+	for _, s := range []string{"", "EU", "EUR", b.country[0]} {
+		in := b.withState(r, eu, s)
+		in.trust, in.cardSec = [][]byte{eu.CSCACert}, nil
+		if ok, _, _ := c01Ref(in); ok {
+			fw.Bug("reference accepts issuing state %q below a CSCA of EU", s)
+		}
+		k.Distinct(fmt.Sprintf("%d|dg1state|below-eu|%s", i, s))
+		st := s
+		c01Judge(k, i, "forgery:dg1-state:below-eu-csca", in, "", func() map[string]any {
+			return map[string]any{"mrz_state_field": strings.ReplaceAll(fmt.Sprintf("%-3s", st), " ", "<"), "signer_country": "EU", "dg1": hexCap(in.dgs[1], 400), "sod": hexCap(in.sod, 6000)}
+		})
+	}
 }
